@@ -44,6 +44,8 @@ pub struct Profile {
     /// a conditional branch whose target is a function entry (static workloads only: the
     /// programs are not meant to be executed)
     pub p_branch_to_function: f64,
+    /// `la t, fn; jalr ra, t, 0` (surface / parser workloads only)
+    pub p_indirect_call: f64,
 }
 
 impl Profile {
@@ -73,7 +75,12 @@ impl Profile {
             p_alias_label: 0.15,
             p_jal_other_rd: 0.0,
             p_branch_to_function: 0.0,
+            p_indirect_call: 0.0,
         }
+    }
+    /// Wild programs with indirect calls (`jalr`), for parser / surface workloads (not executed).
+    pub fn wild_surface() -> Profile {
+        Profile { p_indirect_call: 0.1, ..Profile::wild() }
     }
     /// Wild programs that additionally branch conditionally into functions (not executable).
     pub fn wild_static() -> Profile {
@@ -105,6 +112,7 @@ impl Profile {
             p_alias_label: 0.15,
             p_jal_other_rd: 0.15,
             p_branch_to_function: 0.0,
+            p_indirect_call: 0.0,
         }
     }
 }
@@ -333,7 +341,7 @@ impl<'a> G<'a> {
 
     fn imm12(&mut self) -> i32 {
         if self.rng.chance(self.prof.p_boundary_const) {
-            *self.rng.pick(&[2047, -2048, 0, -1, 1, 1024, -1024])
+            *self.rng.pick(&[2047, -2048, 0, -1, 1, 1024, -1024, 10, 9, 92, 39])
         } else {
             self.rng.range(-64, 64) as i32
         }
@@ -791,6 +799,16 @@ impl<'a> G<'a> {
         let n = self.rng.range(self.prof.stmts.0 as i64, self.prof.stmts.1 as i64) as usize;
         for _ in 0..n {
             self.planted_simple(f);
+            if self.rng.chance(self.prof.p_indirect_call) && !self.sigs.is_empty() {
+                // indirect call through a register
+                let k = self.rng.below(self.sigs.len());
+                let name = self.sigs[k].name.clone();
+                if let Some(t) = self.dst(f, &[]) {
+                    self.emit(Ins::La { rd: t, label: name });
+                    self.emit(Ins::Jalr { rd: RA, rs1: t, imm: 0 });
+                    self.sync(f);
+                }
+            }
             if self.rng.chance(self.prof.p_branch_to_function) && !self.sigs.is_empty() {
                 // conditional branch straight to a function entry
                 let k = self.rng.below(self.sigs.len());
@@ -1568,7 +1586,8 @@ pub fn generate(rng: &mut Rng, prof: &Profile, inject: Option<Inject>) -> Genera
         v.push(Line::Label("dat_buf".into()));
         v.push(Line::Data(Data::Space(64)));
         v.push(Line::Label("dat_s".into()));
-        v.push(Line::Data(Data::Asciz("hello".into())));
+        let strings = ["hello", "a\tb\n", "tab\there", "q\"uote\" \\ back", "two\nlines\n", "caf\u{e9} \u{2713}", ""];
+        v.push(Line::Data(Data::Asciz(strings[g.rng.below(strings.len())].into())));
         v
     };
     // final sequence of (line, flag, Option<emitted index>)
